@@ -119,4 +119,55 @@ REG = {
             enum("pure", "TestC08Enum", 1, 1),
         ],
     },
+    "C04": {
+        "level": "exploration",
+        "technique": "metamorphic property-based testing (rapid): any segmentation of a stream of valid frames must give the same messages as the frames themselves, with a per-read availability count; exhaustive 1-cut/2-cut enumeration for short streams; through the build-tag hook on the real extractor",
+        "level_text": "Streams of 1..12 reference-built frames (both versions, bodies 0..1023 so escaped frames exceed the 1023-byte buffer, escape-dense bodies, fragment headers that reassembly ignores) are cut byte-by-byte, frame-aligned, around delimiters and at random, and fed to the real packageParse either as caller-owned slices or through one reused 1023-byte buffer as connection.reader does. After every read the number of delivered messages must equal the number of frames whose closing delimiter lies in the bytes fed so far; contents must equal the frames.",
+        "level_note": "Uses service.NewVerifExtractor (hook, tag verif) which calls packageParse.parse unchanged. The reader goroutine's own loop is exercised by the socket-level checks (C06/C09).",
+        "rule": "frames and cut positions drawn by rapid (6 cut modes); non-trivial = at least 2 frames and at least one cut strictly inside a frame",
+        "assumptions": ["reference frame builder harness/ref/frame.go"],
+        "required_buckets": {"any": ["cut_inside_frame", "cut_in_escape_pair", "cut_before_delimiter", "fast_path_read", "frame_longer_than_1023", "reused_buffer", "single_read"]},
+        "parts": [
+            rapid("ext", "TestC04", 1500, 30000),
+            enum("ext", "TestC04Enum", 8, 16),
+        ],
+    },
+    "C05": {
+        "level": "exploration",
+        "technique": "model-based property testing (rapid): arrival histories (orders, duplicates, impossible numbers, two interleaved transfers, plain messages, segmentations) against a reference reassembly model, checked after every read; exhaustive orders x single duplicates for N <= 5",
+        "level_text": "Histories are generated from the property's grammar (packet 1 first, permutation of 2..N, duplicates of 2..N, impossible numbers 0 / > N, a second transfer, plain frames) and cut per frame, all in one read or at random; after every read the completed-message count per transfer must equal the reference model's and each completed body must be the packet bodies in number order. Both feeding styles (caller-owned slices, reader-style reused buffer).",
+        "level_note": "Extractor level through the hook; the socket-level path (one reply per completed transfer, callbacks) is C06's. Packet bodies are non-empty as the property states.",
+        "rule": "rapid histories; non-trivial = (N >= 3 and some packet arrives out of ascending order) or a duplicate or an impossible packet is present",
+        "assumptions": ["reference model in ext/c05_test.go (reasm) written from the property statement"],
+        "required_buckets": {"any": ["duplicates", "impossible_packet", "out_of_order", "two_transfers", "reused_buffer", "cuts_per_frame", "cuts_all_in_one", "cuts_random", "N_>=3"]},
+        "parts": [
+            rapid("ext", "TestC05", 1500, 30000),
+            enum("ext", "TestC05Enum", 1, 1),
+        ],
+    },
+    "C09": {
+        "level": "exploration",
+        "technique": "invariant over histories (rapid): snapshot of every delivered message at delivery == its content after every later read and after connection cleanup, with the reader's single reused receive buffer reproduced exactly",
+        "level_text": "Extractor-level: plain and fragmented histories followed by later one-frame-per-read traffic are fed through one reused 1023-byte buffer exactly as connection.reader does; after every read each earlier delivered message (ID, phone, serial, package numbers, Body, TerminalData) must equal the deep snapshot taken at delivery; finally the connection cleanup (pack.clear, clear(buffer)) runs and everything is compared again.",
+        "level_note": "The socket-level part (callbacks holding messages while the writer replies, reply correlation) is added by the scenario engine.",
+        "rule": "rapid histories as in C04/C05 plus 1..4 later frames; non-trivial = at least two reads follow the first delivery",
+        "assumptions": [],
+        "required_buckets": {"any": ["plain", "fragmented", "cleanup"]},
+        "parts": [
+            rapid("ext", "TestC09Extractor", 1500, 30000),
+        ],
+    },
+    "C14": {
+        "level": "exploration",
+        "technique": "model-based property testing (rapid) with a virtual clock: timelines of packets, clock advances and triggers against a reference model of the 5 s re-request / 60 s expiry rules; exhaustive missing-subset enumeration for N <= 8 (10 thorough)",
+        "level_text": "Timelines (packets, Advance(d) with d on both sides of 5 s and 60 s, heartbeat or half-frame triggers, partial resupply, repeated rounds, two concurrent transfers, N up to 255) are run against the real packageParse with its clock shifted through the hook; after every read the set of 0x8003 messages (decoded by the reference: first packet's serial, count, ascending list) and completed deliveries must equal the model's; expired transfers must be gone.",
+        "level_note": "Advance(d) subtracts d from the recorded create/update times, which is equivalent to the wall clock moving forward because the code only compares time.Now() with those fields. Decision points closer than 0.4 s to a deadline are excluded by construction (and counted if they occur). Ambiguous readings are avoided by construction: after an advance the next inbound data is never a packet of a pending transfer.",
+        "rule": "rapid timelines driven by the same model the oracle uses; non-trivial = some re-request names >= 2 missing packets and an advance crosses 5 s",
+        "assumptions": ["virtual clock hook is a faithful stand-in for wall-clock time (validated by the real-clock scenario in the thorough tier of the socket engine)"],
+        "required_buckets": {"any": ["advance_crosses_5s", "advance_crosses_60s", "missing>=2", "rounds>=2", "two_transfers", "N>=10"]},
+        "parts": [
+            rapid("ext", "TestC14", 1500, 30000),
+            enum("ext", "TestC14Enum", 4, 16),
+        ],
+    },
 }
